@@ -1,5 +1,7 @@
 """Registry: property id -> runner(prop, tier, replay) -> exit code."""
 import p_bnf
+import p_ll
 
 REGISTRY = {}
 REGISTRY.update(p_bnf.REGISTRY)
+REGISTRY.update(p_ll.REGISTRY)
